@@ -56,6 +56,9 @@ def _explore(task, mode, deadline_s=None):
     ex = Explorer(task.name, max_paths=task.max_paths)
     ex.mode = mode
     ex.forced = list(task.preset or ())
+    if task.fn is None:  # enumeration-only task (bounded stand-in)
+        ex.wall = 0
+        return ex, "ok", None
     if deadline_s:
         ex.deadline = time.time() + deadline_s
     status, error = "ok", None
@@ -114,7 +117,7 @@ def run_task(task):
     import os
     # also when an obligation failed: the enumeration may supply the concrete failing input
     undec = status != "ok" or any(o.status in ("undecided", "failed") for o in ex.obligations.values())
-    if task.enumerate is not None and (undec or os.environ.get("VERIF_TIER") == "thorough"):
+    if task.enumerate is not None and (undec or task.fn is None or os.environ.get("VERIF_TIER") == "thorough"):
         try:
             en = task.enumerate(int(os.environ.get("VERIF_SEED", "0") or 0))
             res["enumeration"] = en
